@@ -1,4 +1,5 @@
 import GambitV.Model.RefDb
+import GambitV.Props.C05
 
 /-!
 # C04 — each reference genome is paired with the signature stored under its own ID
@@ -175,6 +176,26 @@ theorem locate_ok_iff (names : List (List Char)) (g s : List Char) :
     · cases h
   · rintro ⟨hg, hs⟩
     simp [hg, hs]
+
+/-! ### Every reported distance is computed from the genome's own signature -/
+
+/-- `query()` computes `jaccarddist_matrix(queries, signatures, ref_indices = sig_indices, chunksize)`.  With the pairing returned
+by `loadDb`, column `j` of every row is the distance to the signature stored under genome `m[j].1`'s ID — for every chunk size and
+whatever the output buffer held. (`sigs[p]` = signature at file position `p`, `S[p]` = its stored ID, `G[g]` = ID of genome `g`.) -/
+theorem distances_use_paired {α β γ : Type} [Inhabited β] (dist : α → β → γ) (queries : List α) (sigs : List β)
+    (G S : List Nat) (chunk : Option Nat) (hchunk : ∀ c, chunk = some c → 0 < c)
+    (out : List (List γ)) (hlen : out.length = queries.length)
+    (hrows : ∀ row ∈ out, row.length = (matchIds G S).length) :
+    matrixModel dist queries sigs (some ((matchIds G S).map (·.2))) chunk out =
+      queries.map (fun q => (matchIds G S).map (fun gp => dist q (sigs.getD gp.2 default))) ∧
+    ∀ gp ∈ matchIds G S, ∃ id, S[gp.2]? = some id ∧ G[gp.1]? = some id := by
+  constructor
+  · have h := C05.matrix_cells dist queries sigs (some ((matchIds G S).map (·.2))) chunk hchunk out hlen
+      (by intro row hr; simpa using hrows row hr)
+    rw [h]
+    simp [List.map_map, Function.comp_def]
+  · intro gp hgp
+    exact pairing (g := gp.1) (p := gp.2) hgp
 
 /-! ### Non-vacuity -/
 
